@@ -90,6 +90,14 @@ def gen_case(seed, n, tier="quick"):
         else:
             offs.append(total + r.uniform(0.03, 0.4))              # after W (outside the property; classified only)
     c["offsets"] = [round(x, 4) for x in offs]
+    # a response that is stale on arrival (storable, with a validator, but max-age=0 / no-cache): requests that really
+    # collapsed onto the fetch (sent before the origin's first byte) still share its response; requests that arrive after
+    # the headers find a stale entry and may revalidate (HTTP requires it), so they are not judged in these cases
+    r1 = random.Random(f"C18:stale:{seed}:{n}")
+    c["stale_on_arrival"] = r1.random() < 0.15
+    if c["stale_on_arrival"]:
+        c["cc"] = r1.choice(["max-age=0", "no-cache", "max-age=0, must-revalidate"])
+        c["validator"] = r1.choice(["etag", "lm"])
     return c
 
 
@@ -191,6 +199,9 @@ def run(a, res):
         res.count("origin_fetches", len(oreqs))
         w_lo = first.wall_recv
         w_hi = getattr(first, "wall_resp_done", None)
+        hi_judge = getattr(first, "wall_resp_start", w_hi) if (c.get("stale_on_arrival") and w_hi is not None) else w_hi
+        if c.get("stale_on_arrival"):
+            res.count("bursts_with_stale_on_arrival_response")
         n_inside = n_inside_refetch = n_late = n_late_refetch = n_edge = n_edge_refetch = n_lagged = n_lagged_refetch = 0
         workers = set()
         # racing leaders (SMP only can have them): further fetches on behalf of requests that were sent before / together
@@ -214,13 +225,13 @@ def run(a, res):
             # ---- window classification (the first request opens W; it is not judged against itself)
             if not is_first and w_hi is not None:
                 st = started.get(rec["req_id"])
-                if rec["t_before"] > w_lo + GUARD and rec["t_after"] < w_hi - GUARD and (st is None or st[0] >= w_hi - GUARD):
+                if rec["t_before"] > w_lo + GUARD and rec["t_after"] < hi_judge - GUARD and (st is None or st[0] >= hi_judge - GUARD):
                     # sent inside W, but squid itself says it began handling the request only after the origin had finished
                     # sending (busy machine), or squid logged nothing for it: arrival inside the fetch is not established
                     n_lagged += 1
                     if fetched:
                         n_lagged_refetch += 1
-                elif rec["t_before"] > w_lo + GUARD and rec["t_after"] < w_hi - GUARD:
+                elif rec["t_before"] > w_lo + GUARD and rec["t_after"] < hi_judge - GUARD:
                     n_inside += 1
                     workers.add(st[1])
                     if fetched:
